@@ -127,6 +127,34 @@ func init() {
 		},
 		Undecided: []string{"YAML round trip on restart (library)", "the exact password rule cases (unchanged marker / absent) are not yet under contract"},
 	}
+	plans["C18"] = &Plan{
+		Items: append([]Item{
+			{Plugin: "sites", Func: "mobius.(*ThreadedNewsYAML).PostArticle", Kinds: []string{"site", "post", "guarded"}},
+			{Plugin: "sites", Func: "mobius.(*ThreadedNewsYAML).DeleteArticle", Kinds: []string{"site", "post"}},
+			{Plugin: "sites", Func: "hotline.(*NewsCategoryListData15).GetNewsArtListData", Kinds: []string{"site"}},
+		}, fnItems(nil, "hotline.(*NewsArtList).Read", "hotline.(*NewsArtListData).Read", "hotline.(*NewsCategoryListData15).Read")...),
+		Decided: []string{
+			"PostArticle: the previous-article link is at least every article ID collected from the category (sort.Ints contract) and the new ID is that maximum + 1 (it is what the old newest article's next link receives); the article is stored under the new ID with the requested parent; no other entry of the category's article map changes; the result is the result of writing the news file; the tree is only touched under the mutex",
+			"DeleteArticle removes exactly the addressed article (whole-map frame) and returns the result of writing the file",
+			"the article list is built by draining every entry with io.ReadAll through its proved cursor contract (NewsArtList.Read), never by a single bare Read; list encoders NewsArtList / NewsArtListData / NewsCategoryListData15 satisfy their wire layouts (C01)",
+		},
+		Undecided: []string{"that the IDs collected by ranging over the map are all IDs present (Go's range semantics; the freshness claim is relative to that)", "CreateGrouping / DeleteNewsItem / GetCategories / ListArticles, first-child maintenance, YAML reload"},
+	}
+	plans["C19"] = &Plan{
+		Items: []Item{
+			{Plugin: "sites", Func: "mobius.(*FlatNews).Write", Kinds: []string{"site", "post", "guarded"}},
+			{Func: "mobius.(*FlatNews).Read"}, {Func: "mobius.(*FlatNews).Seek"},
+			{Func: "mobius.(*Agreement).Read"}, {Func: "mobius.(*Agreement).Seek"},
+			{Plugin: "handler-contract", Func: "mobius.HandleTranOldPostNews", Kinds: []string{"site"}},
+			{Plugin: "handler-contract", Func: "mobius.HandleGetMsgs", Kinds: []string{"site"}},
+		},
+		Decided: []string{
+			"FlatNews.Write: the board becomes post ++ old board, exactly that is written to the temporary file and renamed into place, all under the store's mutex (concurrent posts are serialised, none is lost), and len(p) is reported only after the rename succeeded",
+			"FlatNews.Read / Agreement.Read satisfy the cursor contract over the stored text and touch cursor and data under the mutex only",
+			"HandleTranOldPostNews replies and announces only after the board accepted the post; HandleGetMsgs returns exactly what io.ReadAll read from the board object itself (no wrapper, no truncation)",
+		},
+		Undecided: []string{"complete text under concurrent readers: 3 known findings (shared cursor S13)", "the post format string and the agreement send in handleNewConnection"},
+	}
 	plans["C17"] = &Plan{
 		Items: []Item{
 			{Plugin: "sites", Func: "hotline.(*Server).handleNewConnection", Kinds: siteKinds},
